@@ -71,7 +71,6 @@ macro_rules! from_kernel {
                 }
             }
             kani::cover!(r.is_ok());
-            kani::cover!(r.is_err());
         }
     };
 }
@@ -137,11 +136,11 @@ macro_rules! ctr_seq {
             check_pos!(s, 0);
             // op 1
             let p1: u128 = $p1;
-            assert!(s.try_seek(p1).is_ok());
+            s.try_seek(p1).unwrap();
             check_pos!(s, p1);
             let d1: [u8; $n1] = kani::any();
             let mut b1 = d1;
-            assert!(s.try_apply_keystream(&mut b1).is_ok());
+            s.try_apply_keystream(&mut b1).unwrap();
             let mut i = 0;
             while i < $n1 {
                 assert!(b1[i] == d1[i] ^ ks[(p1 - base) as usize + i], "bytes after seek are not keystream bytes p, p+1, ...");
@@ -150,11 +149,11 @@ macro_rules! ctr_seq {
             check_pos!(s, p1 + $n1 as u128);
             // op 2 (typically backward / into the middle of a block, via a different integer type)
             let p2: u64 = $p2;
-            assert!(s.try_seek(p2).is_ok());
+            s.try_seek(p2).unwrap();
             check_pos!(s, p2 as u128);
             let d2: [u8; $n2] = kani::any();
             let mut b2 = d2;
-            assert!(s.try_apply_keystream(&mut b2).is_ok());
+            s.try_apply_keystream(&mut b2).unwrap();
             let mut i = 0;
             while i < $n2 {
                 assert!(b2[i] == d2[i] ^ ks[(p2 as u128 - base) as usize + i], "bytes after second seek are not keystream bytes p, p+1, ...");
@@ -163,10 +162,10 @@ macro_rules! ctr_seq {
             check_pos!(s, p2 as u128 + $n2 as u128);
             // op 3
             let p3: u128 = $p3;
-            assert!(s.try_seek(p3).is_ok());
+            s.try_seek(p3).unwrap();
             check_pos!(s, p3);
             let mut one = [0u8; 1];
-            assert!(s.try_apply_keystream(&mut one).is_ok());
+            s.try_apply_keystream(&mut one).unwrap();
             assert!(one[0] == ks[(p3 - base) as usize]);
             check_pos!(s, p3 + 1);
             kani::cover!(true);
@@ -189,14 +188,14 @@ macro_rules! belt_seq {
             let mut ks = [0u8; NW * B];
             spec::belt_ks(c.p(), s0, W0, &mut ks);
             let base: u128 = W0 * B as u128;
-            let mut s = belt_ctr::BeltCtr::<UfE<U16, $par>>::new(&key.into(), blk::<U16>(&iv));
+            let mut s = crate::common::belt_alias::<$par>(key, &iv);
             check_pos!(s, 0);
             let p1: u128 = $p1;
-            assert!(s.try_seek(p1).is_ok());
+            s.try_seek(p1).unwrap();
             check_pos!(s, p1);
             let d1: [u8; $n1] = kani::any();
             let mut b1 = d1;
-            assert!(s.try_apply_keystream(&mut b1).is_ok());
+            s.try_apply_keystream(&mut b1).unwrap();
             let mut i = 0;
             while i < $n1 {
                 assert!(b1[i] == d1[i] ^ ks[(p1 - base) as usize + i], "bytes after seek are not keystream bytes p, p+1, ...");
@@ -204,10 +203,10 @@ macro_rules! belt_seq {
             }
             check_pos!(s, p1 + $n1 as u128);
             let p2: u128 = $p2;
-            assert!(s.try_seek(p2).is_ok());
+            s.try_seek(p2).unwrap();
             let d2: [u8; $n2] = kani::any();
             let mut b2 = d2;
-            assert!(s.try_apply_keystream(&mut b2).is_ok());
+            s.try_apply_keystream(&mut b2).unwrap();
             let mut i = 0;
             while i < $n2 {
                 assert!(b2[i] == d2[i] ^ ks[(p2 - base) as usize + i]);
@@ -215,7 +214,7 @@ macro_rules! belt_seq {
             }
             check_pos!(s, p2 + $n2 as u128);
             let p3: u128 = $p3;
-            assert!(s.try_seek(p3).is_ok());
+            s.try_seek(p3).unwrap();
             check_pos!(s, p3);
             kani::cover!(true);
         }
@@ -223,17 +222,19 @@ macro_rules! belt_seq {
 }
 
 // ---------------------------------------------------------------------------------------------
-// B2. symbolic block index: position the core, wrap it, consume OFF bytes, then apply N bytes.
+// B2. block index set on the core (not through try_seek): position the core at POS, wrap it,
+// consume OFF bytes, then apply N bytes.  POS is a concrete constant per harness (a symbolic one
+// makes the wrapper's `blocks > remaining` test a symbolic branch merged into every later call);
+// the symbolic-position statements are the core contract (c04/c06) and the position kernels.
 macro_rules! ctr_anypos {
-    ($name:ident, $unw:expr, $flavor:ident, $spec:expr, $ct:ty, $bs:ty, $b:expr, $par:ty, $off:expr, $n:expr) => {
+    ($name:ident, $unw:expr, $flavor:ident, $spec:expr, $ct:ty, $bs:ty, $b:expr, $par:ty, $off:expr, $n:expr, $pos:expr) => {
         #[kani::proof]
         #[kani::unwind($unw)]
         pub fn $name() {
             const B: usize = $b;
             const NB: usize = ($off + $n + B) / B;
             let iv: [u8; B] = kani::any();
-            let pos: $ct = kani::any();
-            kani::assume(pos <= <$ct>::MAX - 2 * NB as $ct);
+            let pos: $ct = $pos;
             let c = UfE::<$bs, $par>::with_key(kani::any());
             let mut ks = [0u8; NB * B];
             spec::ctr_ks(c.p(), $spec, &iv, pos as u128, &mut ks);
@@ -243,11 +244,11 @@ macro_rules! ctr_anypos {
             let base = pos as u128 * B as u128;
             check_pos!(s, base);
             let mut skip = [0u8; $off];
-            assert!(s.try_apply_keystream(&mut skip).is_ok());
+            s.try_apply_keystream(&mut skip).unwrap();
             check_pos!(s, base + $off as u128);
             let d: [u8; $n] = kani::any();
             let mut buf = d;
-            assert!(s.try_apply_keystream(&mut buf).is_ok());
+            s.try_apply_keystream(&mut buf).unwrap();
             let mut i = 0;
             while i < $n {
                 assert!(buf[i] == d[i] ^ ks[$off + i]);
@@ -255,7 +256,6 @@ macro_rules! ctr_anypos {
             }
             check_pos!(s, base + $off as u128 + $n as u128);
             kani::cover!(true);
-            kani::cover!(base + $off as u128 > u64::MAX as u128);
         }
     };
 }
@@ -272,9 +272,9 @@ ctr_seq!(seq_ctr64le_b8_w1_start, 64, Ctr64LE, spec::CTR64LE, U8, 8, U1, 0, 5, 8
 ctr_seq!(seq_ctr128be_b16_w1_start, 100, Ctr128BE, spec::CTR128BE, U16, 16, U1, 0, 4, 33, 17, 15, 2, 48);
 ctr_seq!(seq_ctr128le_b16_w2_start, 100, Ctr128LE, spec::CTR128LE, U16, 16, U2, 0, 4, 16, 31, 1, 16, 63);
 belt_seq!(seq_belt_w1_start, 100, U1, 0, 4, 33, 17, 15, 2, 48);
-ctr_anypos!(any_ctr32be_b4_w1_o3_n6, 64, Ctr32BE, spec::CTR32BE, u32, U4, 4, U1, 3, 6);
-ctr_anypos!(any_ctr64le_b8_w2_o0_n9, 64, Ctr64LE, spec::CTR64LE, u64, U8, 8, U2, 0, 9);
-ctr_anypos!(any_ctr128be_b16_w1_o5_n12, 100, Ctr128BE, spec::CTR128BE, u128, U16, 16, U1, 5, 12);
+ctr_anypos!(any_ctr32be_b4_w1_o3_n6, 64, Ctr32BE, spec::CTR32BE, u32, U4, 4, U1, 3, 6, 0x7fff_fff0u32);
+ctr_anypos!(any_ctr64le_b8_w2_o0_n9, 64, Ctr64LE, spec::CTR64LE, u64, U8, 8, U2, 0, 9, 0x2000_0000_0000_0001u64);
+ctr_anypos!(any_ctr128be_b16_w1_o5_n12, 100, Ctr128BE, spec::CTR128BE, u128, U16, 16, U1, 5, 12, u128::MAX / 16 - 7);
 
 // ---- thorough --------------------------------------------------------------------------------
 ctr_seq!(t_seq_ctr32le_b4_w2_start, 64, Ctr32LE, spec::CTR32LE, U4, 4, U2, 0, 8, 4, 12, 3, 1, 31);
@@ -283,10 +283,10 @@ ctr_seq!(t_seq_ctr32le_b16_w1_near_end, 100, Ctr32LE, spec::CTR32LE, U16, 16, U1
 ctr_seq!(t_seq_ctr64be_b16_w2_far, 100, Ctr64BE, spec::CTR64BE, U16, 16, U2, 0x0fff_ffff_ffff_fffe, 4, 0xffff_ffff_ffff_ffe5, 20, 0xffff_ffff_ffff_ffe0, 3, 0x1_0000_0000_0000_0011);
 ctr_seq!(t_seq_ctr128be_b16_w2_far, 100, Ctr128BE, spec::CTR128BE, U16, 16, U2, 0x0fff_ffff_ffff_fffe, 4, 0xffff_ffff_ffff_ffe5, 20, 0xffff_ffff_ffff_ffe0, 3, 0x1_0000_0000_0000_0011);
 belt_seq!(t_seq_belt_w2_far, 100, U2, 0x0fff_ffff_ffff_fffe, 4, 0xffff_ffff_ffff_ffe5, 20, 0xffff_ffff_ffff_fff1, 3, 0x1_0000_0000_0000_0011);
-ctr_anypos!(t_any_ctr32le_b4_w2_o5_n4, 64, Ctr32LE, spec::CTR32LE, u32, U4, 4, U2, 5, 4);
-ctr_anypos!(t_any_ctr32be_b16_w1_o15_n2, 100, Ctr32BE, spec::CTR32BE, u32, U16, 16, U1, 15, 2);
-ctr_anypos!(t_any_ctr64be_b8_w1_o7_n10, 64, Ctr64BE, spec::CTR64BE, u64, U8, 8, U1, 7, 10);
-ctr_anypos!(t_any_ctr128le_b16_w2_o16_n17, 100, Ctr128LE, spec::CTR128LE, u128, U16, 16, U2, 16, 17);
+ctr_anypos!(t_any_ctr32le_b4_w2_o5_n4, 64, Ctr32LE, spec::CTR32LE, u32, U4, 4, U2, 5, 4, 0x4000_0000u32);
+ctr_anypos!(t_any_ctr32be_b16_w1_o15_n2, 100, Ctr32BE, spec::CTR32BE, u32, U16, 16, U1, 15, 2, 0x1000_0000u32);
+ctr_anypos!(t_any_ctr64be_b8_w1_o7_n10, 64, Ctr64BE, spec::CTR64BE, u64, U8, 8, U1, 7, 10, u64::MAX / 8 + 1);
+ctr_anypos!(t_any_ctr128le_b16_w2_o16_n17, 100, Ctr128LE, spec::CTR128LE, u128, U16, 16, U2, 16, 17, u128::MAX / 64 + 9);
 into_kernel!(t_k_into_usize_c32_b4, usize, u32, 4u8);
 into_kernel!(t_k_into_u64_c128_b32, u64, u128, 32u8);
 into_kernel!(t_k_into_i32_c64_b24, i32, u64, 24u8);
